@@ -26,6 +26,7 @@ func checkC04(c *Ctx) {
 	ruleLPTypestate(c)
 	ruleArity(c)
 	ruleIndexGuard(c)
+	ruleNilMatcher(c)
 	c.Assume("implicit panics (index, slice bounds, nil dereference), the value-guard panics (Advance, ConsumeIndent, close, wrap), termination of loops that make progress on every path, and stack depth are not decided")
 }
 
@@ -1382,5 +1383,71 @@ func ruleIndexGuard(c *Ctx) {
 	c.Analysed["guarded_cursor_and_lookahead_reads"] = n
 	if n < 3 {
 		c.Undecided("INDEX-GUARD", "instance-count", token.NoPos, fmt.Sprintf("%d cursor/look-ahead reads found; every byte-slice read in the package is inspected and the idiom must still be recognised", n))
+	}
+}
+
+// ---------------------------------------------------------------------------------------------
+// NILMATCHER: the optional reference matcher is never called while it may be nil.
+
+func ruleNilMatcher(c *Ctx) {
+	c.Rule("NILMATCHER", "InlineParser.ReferenceMatcher is optional (the zero InlineParser is usable: block-by-block parsing without a reference map). Every method call on it is dominated by the non-nil edge of a test of that field, in its function or at every call site of its function: a call on a nil interface is a panic for any input that contains a bracketed span.")
+	p := c.P
+	n := 0
+	nonNilDominates := func(fn *ssa.Function, blk *ssa.BasicBlock) bool {
+		for _, b := range fn.Blocks {
+			iff := blockIf(b)
+			if iff == nil {
+				continue
+			}
+			x, nilIdx, ok := nilTest(iff.Cond)
+			if !ok {
+				continue
+			}
+			if _, isRM := isLoadOfField(x, "InlineParser", "ReferenceMatcher"); !isRM {
+				continue
+			}
+			if edgeDominates(b, 1-nilIdx, blk) {
+				return true
+			}
+		}
+		return false
+	}
+	var guardedEverywhere func(fn *ssa.Function, busy map[*ssa.Function]bool) bool
+	guardedEverywhere = func(fn *ssa.Function, busy map[*ssa.Function]bool) bool {
+		if busy[fn] || (fn.Object() != nil && fn.Object().Exported()) {
+			return false
+		}
+		busy[fn] = true
+		defer delete(busy, fn)
+		sites, ok := 0, true
+		for _, caller := range p.Funcs {
+			eachInstr(caller, func(in ssa.Instruction) {
+				if call, isC := in.(*ssa.Call); isC && call.Call.StaticCallee() == fn {
+					sites++
+					if !nonNilDominates(caller, call.Block()) && !guardedEverywhere(caller, busy) {
+						ok = false
+					}
+				}
+			})
+		}
+		return sites > 0 && ok
+	}
+	for _, fn := range p.Funcs {
+		eachInstr(fn, func(in ssa.Instruction) {
+			ci, ok := in.(ssa.CallInstruction)
+			if !ok || !ci.Common().IsInvoke() {
+				return
+			}
+			if _, isRM := isLoadOfField(ci.Common().Value, "InlineParser", "ReferenceMatcher"); !isRM {
+				return
+			}
+			n++
+			key := fmt.Sprintf("%s:%s#%d", shortFuncName(fn), ci.Common().Method.Name(), n)
+			good := nonNilDominates(fn, in.Block()) || guardedEverywhere(fn, map[*ssa.Function]bool{})
+			c.Check(good, "NILMATCHER", key, in.Pos(), "the reference matcher is called where it may be nil")
+		})
+	}
+	if n < 1 {
+		c.Undecided("NILMATCHER", "instance-count", token.NoPos, "no call on InlineParser.ReferenceMatcher found")
 	}
 }
